@@ -147,7 +147,7 @@ PROPS = {
             {"bin": "oracle_c01", "quick": ("{seed}", "600"), "thorough": ("{seed}", "20000")},
         ],
         "partial": ["point_arc_verdict: for PointArcCoincident only 'on the circle' is guaranteed by a satisfied verdict; the arc's sweep is not checked within 0.05 of the circle (known finding F14)",
-                    "the geometric meaning of each error measure (residual_measures_<kind>) is proved over the reals in Ezpz/Real (see evidence of C13/C01 real part when present); in f64 it is checked by the independent geometric oracle only"],
+                    "the geometric meaning of each error measure (residual_measures_<kind> over the reals) is not proved; it is checked by the independent geometric oracle on the real code only"],
         "assumptions": ["EPSILON is the value extracted from lib.rs on this run"],
     },
     "C06": {
